@@ -322,7 +322,7 @@ def oracle_c05(lhs, obs, group=None):
                 if not live.get(tid):
                     return f"call {i}: response delivered for an id that is not outstanding"
                 live[tid] = False
-            elif p[1] in ("ok", "err") and not live.get(tid):
+            elif p[1].split("@")[0] in ("ok", "err") and not live.get(tid):
                 if head != "drop" or (prev_snap is not None and snaps != prev_snap):
                     return f"call {i}: response for an id that is not outstanding was not dropped without a trace ({head})"
         elif p[0] == "P":
@@ -413,7 +413,7 @@ def oracle_c07(lhs, obs, group=None):
             if t not in asked:
                 return (f"call {i}: transaction {t:x} was reported cancelled although neither cancel nor cancel_retransmissions "
                         f"was called for it since it was sent (responses must not be able to cancel a transaction)")
-        if p[0] == "H" and p[1] in ("ok", "err"):
+        if p[0] == "H" and p[1].split("@")[0] in ("ok", "err"):
             tid = int(p[2], 16)
             if tid in sealed:
                 signkey = p[3].split(":")[1] if ":" in p[3] else None
